@@ -114,7 +114,8 @@ def rand_rotation(rng, form=None):
         axis /= np.linalg.norm(axis)
         angle = rng.uniform(0.2, np.pi - 0.2)
         Q = rodrigues(axis, angle)
-        lu, lw = rng.uniform(0.3, 4.0, 2)
+        # only the directions matter: Ms-sized (1e6) and nm-sized (1e-9) vectors included
+        lu, lw = (10.0 ** rng.uniform(-9, 9, 2)) if rng.random() < 0.6 else rng.uniform(0.3, 4.0, 2)
         initial = (lu * u).tolist()
         final = (lw * (Q @ u)).tolist()
         return "align_vector", (), {"initial": initial, "final": final}, Q, form
@@ -310,8 +311,18 @@ def compare_rotators(ctx, monitor, f, g, h, Q, info):
               n_a=g.mesh.n, n_b=h.mesh.n, **info)
 
 
+REJECTED = {"n": 0}
+
+
 def apply(rot, spec, n=None):
     method, args, kwargs, _, _ = spec
+    if _HIST is not None and _HIST.random() < 0.25:
+        # history: a call that is refused (no mesh has zero cells) precedes the valid one;
+        # the refused rotation must not stay behind in the rotator
+        try:
+            rot.rotate(method, *args, n=(0, 1, 1), **kwargs)
+        except Exception:  # noqa: BLE001
+            REJECTED["n"] += 1
     if n is None:
         rot.rotate(method, *args, **kwargs)
     else:
@@ -324,8 +335,13 @@ def describe(spec):
 
 
 # ----------------------------------------------------------------------- kinds
+_HIST = None
+
+
 def history(ctx):
+    global _HIST
     rng = ctx.rng
+    _HIST = np.random.default_rng([ctx.i, 18])
     small = rng.random() < 0.12       # thin samples: nothing is >= one cell inside
     mesh, n, cell, pmin, pmax, off = rand_mesh(rng, 1 if small else 3, 3 if small else (7 if ctx.thorough else 6))
     nvdim = int(rng.choice([1, 3]))
